@@ -178,6 +178,86 @@ Section Through.
         rewrite Hzid in Hzst. rewrite (Hon hd sg Hls Eseg) in Eblk; [discriminate|]. rewrite Hzst. discriminate.
   Qed.
 
+  (* the same without the hypothesis on the cursor block: either the cursor block is off the head's segment (and at or
+     above n: the answer is the cursor's own branch followed by blocks_from_cursor), or the snapshot as above *)
+  Lemma hub_through_shape_gen s V n cu burst :
+    VState U first kept s V ->
+    hub_through_cursor s n cu = BOk burst ->
+    exists hd sg,
+      last_sent s = Some hd /\ complete_segment (db s) (bref hd) = Some (sg, true) /\ good_seg sg /\
+      ((n <= rn (cu_blk cu) /\ block_in (ri (cu_blk cu)) sg = false /\ blocks_through_cursor s n cu = BOk burst) \/
+       ((rn (cu_blk cu) < n \/ block_in (ri (cu_blk cu)) sg = true) /\ exists pre post,
+      sg = pre ++ post /\ (forall y, In y pre -> snum y < n) /\ (forall y, In y post -> n <= snum y) /\
+      burst = map (snap_event s hd) post /\
+      (pre = [] -> post <> [] -> exists x0 r, post = x0 :: r /\ snum x0 = n) /\
+      (post <> [] \/ (block_in (ri (cu_blk cu)) sg = true /\ n <= rn (cu_blk cu))))).
+  Proof.
+    intros HV Hb.
+    destruct (vstate_facts U first kept U_id U_uniq U_up s V HV) as (_ & _ & W & hd & Hls & _).
+    unfold hub_through_cursor in Hb. destruct (rn (cu_blk cu) <? n) eqn:En.
+    - (* below the requested number: as from a block number *)
+      pose proof (c09_from_num_proof s n W) as Hspec. unfold from_num_spec in Hspec. rewrite Hb in Hspec.
+      destruct Hspec as (hd' & sg & pre & x & suf & (_ & Hls' & Eseg & Hsg & Hnx & Hpre & Hsuf) & Hevs & _).
+      rewrite Hls in Hls'. injection Hls' as <-.
+      destruct (vstate_segment U first kept U_id U_uniq U_up s V hd sg true HV Hls Eseg) as (Hgood & _ & _).
+      pose proof Hgood as [Hstd _ _ _].
+      assert (Hn : forall y, In y sg -> snum y = bnum (seg_blk y)).
+      { intros y Hy. rewrite Forall_forall in Hstd. exact (proj2 (Hstd y Hy)). }
+      exists hd, sg. split; [exact Hls|]. split; [exact Eseg|]. split; [exact Hgood|]. right. split; [left; apply N.ltb_lt; exact En|]. exists pre, (x :: suf). split; [exact Hsg|].
+      split; [|split; [|split; [exact Hevs|]]].
+      + intros y Hy. rewrite (Hn y); [apply Hpre; exact Hy | rewrite Hsg; apply in_or_app; left; exact Hy].
+      + intros y [<-|Hy].
+        * rewrite (Hn x); [lia | rewrite Hsg; apply in_or_app; right; left; reflexivity].
+        * rewrite (Hn y); [specialize (Hsuf y Hy); lia | rewrite Hsg; apply in_or_app; right; right; exact Hy].
+      + split; [|left; discriminate]. intros _ _. exists x, suf. split; [reflexivity|]. rewrite (Hn x); [exact Hnx | rewrite Hsg; apply in_or_app; right; left; reflexivity].
+    - (* through the cursor *)
+      pose proof Hb as Hb0. unfold blocks_through_cursor in Hb.
+      destruct (has_lib (db s)); [|discriminate]. cbn [negb] in Hb. rewrite Hls in Hb.
+      destruct (complete_segment (db s) (bref hd)) as [[sg [|]]|] eqn:Eseg; try discriminate.
+      2:{ destruct sg; discriminate. }
+      destruct sg as [|s0 sg0]; [discriminate|]. set (sg := s0 :: sg0) in *.
+      destruct (n <? snum s0) eqn:En0; [discriminate|]. apply N.ltb_ge in En0.
+      destruct (vstate_segment U first kept U_id U_uniq U_up s V hd sg true HV Hls Eseg) as (Hgood & _ & _).
+      destruct (block_in (ri (cu_blk cu)) sg) eqn:Eblk.
+      + (* the snapshot *)
+        injection Hb as <-. pose proof Hgood as [Hstd _ Hinc _].
+        assert (HS : StronglySorted (fun x y => snum x < snum y) sg).
+        { clear - Hstd Hinc. induction Hinc as [|x l HS IH Hall]; [constructor|].
+          inversion Hstd as [|? ? Hx Hstd']; subst. constructor; [auto|].
+          rewrite Forall_forall in *. intros y Hy. apply snum_lt_of; auto. }
+        destruct (mono_filter_suffix _ (fun x => negb (snum x <? n)) sg HS) as (pre & Esg & Hpre).
+        { intros x y Hxy Hx. apply negb_true_iff, N.ltb_ge in Hx. apply negb_true_iff, N.ltb_ge. lia. }
+        set (post := filter (fun x => negb (snum x <? n)) sg) in *.
+        exists hd, sg. split; [exact Hls|]. split; [exact Eseg|]. split; [exact Hgood|]. right. split; [right; exact Eblk|]. exists pre, post. split; [exact Esg|].
+        split; [|split; [|split]].
+        * intros y Hy. destruct (snum y <? n) eqn:E; [apply N.ltb_lt; exact E|]. exfalso.
+          assert (Hin : In y (filter (fun x => negb (snum x <? n)) pre)) by (apply filter_In; split; [exact Hy | rewrite E; reflexivity]).
+          rewrite Hpre in Hin. destruct Hin.
+        * intros y Hy. unfold post in Hy. apply filter_In in Hy as [_ Hy]. apply negb_true_iff, N.ltb_ge in Hy. exact Hy.
+        * assert (E : forall x, In x sg ->
+                    (if snum x <? n then [] else [wrap x (if snum x <=? rn (libref (db s)) then SNewIrr else SNew) (bref hd)
+                                                    (if snum x <? rn (libref (db s)) then seg_ref x else libref (db s)) None])
+                    = (if negb (snum x <? n) then [snap_event s hd x] else [])).
+          { intros x Hx. destruct (snum x <? n); [reflexivity|]. cbn [negb]. f_equal. apply wrap_snap.
+            rewrite Forall_forall in Hstd. apply Hstd. exact Hx. }
+          assert (Hfm : flat_map (fun x => if snum x <? n then [] else [wrap x (if snum x <=? rn (libref (db s)) then SNewIrr else SNew) (bref hd)
+                                                    (if snum x <? rn (libref (db s)) then seg_ref x else libref (db s)) None]) sg
+                        = map (snap_event s hd) post).
+          { rewrite (flat_map_ext_in _ _ sg E). apply flat_map_keep. }
+          exact Hfm.
+        * split; [|right; split; [exact Eblk | apply N.ltb_ge; exact En]].
+          intros Hp0 Hne. subst pre. cbn [app] in Esg. destruct post as [|x0 r] eqn:Ep; [contradiction|].
+          exists x0, r. split; [reflexivity|].
+          assert (Ex0 : x0 = s0) by (unfold sg in Esg; injection Esg as E _; symmetry; exact E).
+          assert (Hx0 : n <= snum x0).
+          { assert (Hin : In x0 post) by (rewrite Ep; left; reflexivity). unfold post in Hin. apply filter_In in Hin as [_ H].
+            apply negb_true_iff, N.ltb_ge in H. exact H. }
+          rewrite Ex0 in *. lia.
+      + (* the cursor block is not on the chain *)
+        exists hd, sg. split; [exact Hls|]. split; [exact Eseg|]. split; [exact Hgood|]. left.
+        split; [apply N.ltb_ge; exact En|]. split; [exact Eblk | exact Hb0].
+  Qed.
+
   (* a suffix x :: suf of the head's segment: blocks of the universe, parent-linked, ending with the head *)
   Lemma seg_post_facts s V hd sg pre x suf :
     VState U first kept s V -> last_sent s = Some hd -> complete_segment (db s) (bref hd) = Some (sg, true) ->
@@ -343,16 +423,23 @@ Section TargetJoin.
   (* a join in target-cursor mode hands over the retained chain from the joining block on.  The first answered block
      is the file block: by the identity check when the cursor has passed, and otherwise because it is the ancestor of
      the cursor block at that height on the hub's chain as on canon *)
-  Lemma target_joins_gen w : target_on_chain c w cu -> joins_good U c merged w.
+  Lemma target_join_at w lowest bn burst V :
+    In bn merged -> join_try c w lowest (fev bn) = Some burst -> VState U first kept (h_f (w_hub w)) V ->
+    (exists hd sg, last_sent (h_f (w_hub w)) = Some hd /\ complete_segment (db (h_f (w_hub w))) (bref hd) = Some (sg, true) /\
+       bnum bn <= rn (cu_blk cu) /\ block_in (ri (cu_blk cu)) sg = false /\
+       blocks_through_cursor (h_f (w_hub w)) (bnum bn) cu = BOk burst) \/
+    (exists hd sufb l, hd_error V = Some hd /\ map eblk burst = bn :: sufb /\
+       Forall (fun e => matches_new (estep e) = true) burst /\
+       Forall (fun y => In y U) (bn :: sufb) /\ lnk (bid bn) sufb /\ bn :: sufb = l ++ [hd]).
   Proof.
-    intros Hto m lowest bn burst Hbn Ej.
-    destruct (join_try_target c (world_after c m w) lowest (fev bn) cu burst Hmode Hcur Ej) as (Eb & Hrd & Hpassed).
+    intros Hbn Ej HV.
+    destruct (join_try_target c w lowest (fev bn) cu burst Hmode Hcur Ej) as (Eb & Hrd & Hpassed).
     cbn [eblk file_event] in Eb, Hpassed.
-    split; [exact Hrd|]. intros V HV. fold first kept in HV.
-    set (s := h_f (w_hub (world_after c m w))) in *.
-    pose proof (fun hd sg H1 H2 H3 => Hto m hd sg Hrd H1 H2 H3) as Hon.
-    destruct (hub_through_shape U first kept U_id U_uniq U_up s V (bnum bn) cu burst HV Hon Eb)
-      as (hd & sg & pre & post & Hls & Eseg & Hgood & Hsg & Hpre & Hpost & Hevs & Hfirst & Hnonempty).
+    set (s := h_f (w_hub w)) in *.
+    destruct (hub_through_shape_gen U first kept U_id U_uniq U_up s V (bnum bn) cu burst HV Eb)
+      as (hd & sg & Hls & Eseg & Hgood & [(Hle & Hoff & Hbt)|(Hcase & pre & post & Hsg & Hpre & Hpost & Hevs & Hfirst & Hnonempty)]).
+    { left. exists hd, sg. auto. }
+    right.
     pose proof Hgood as [Hstd _ Hinc _].
     assert (Hn : forall y, In y sg -> snum y = bnum (seg_blk y)).
     { intros y Hy. rewrite Forall_forall in Hstd. exact (proj2 (Hstd y Hy)). }
@@ -379,7 +466,7 @@ Section TargetJoin.
         injection Eburst as Eb0 _. rewrite <- Eb0 in Eid. unfold snap_event in Eid. cbn [eblk] in Eid.
         apply U_uniq; [exact (Forall_inv HpU) | exact HbnU | exact Eid].
       - (* through the cursor proper: both are the ancestor of the cursor block at that height *)
-        pose proof (through_proper_on_chain U first kept s V (bnum bn) cu burst hd sg HV Hon Hab Eb Hls Eseg) as Hblk.
+        assert (Hblk : block_in (ri (cu_blk cu)) sg = true) by (destruct Hcase as [Hc|Hc]; [lia | exact Hc]).
         destruct (HxB Hblk) as (xB & HxBin & EB).
         destruct sg as [|s0 sg0] eqn:Esg0; [destruct pre; discriminate|].
         assert (Hs0 : snum s0 <= bnum bn).
@@ -417,6 +504,18 @@ Section TargetJoin.
     { rewrite Hevs. apply Forall_forall. intros e He. apply in_map_iff in He as (q & <- & _).
       unfold snap_event. cbn [estep]. destruct (bnum (seg_blk q) <=? rn (libref (db s))); reflexivity. }
     split; [exact HpU|]. split; [exact Hlr | exact Hl].
+  Qed.
+
+  Lemma target_joins_gen w : target_on_chain c w cu -> joins_good U c merged w.
+  Proof.
+    intros Hto m lowest bn burst Hbn Ej.
+    destruct (join_try_target c (world_after c m w) lowest (fev bn) cu burst Hmode Hcur Ej) as (Eb & Hrd & _).
+    cbn [eblk file_event] in Eb.
+    split; [exact Hrd|]. intros V HV. fold first kept in HV.
+    destruct (target_join_at (world_after c m w) lowest bn burst V Hbn Ej HV) as [(hd & sg & Hls & Eseg & Hle & Hoff & _)|H]; [|exact H].
+    exfalso.
+    rewrite (through_proper_on_chain U first kept _ V (bnum bn) cu burst hd sg HV (fun hd sg H1 H2 H3 => Hto m hd sg Hrd H1 H2 H3) Hle Eb Hls Eseg) in Hoff.
+    discriminate.
   Qed.
 End TargetJoin.
 
